@@ -67,8 +67,8 @@ func (fakeClientSets) ClientID() string               { return "gw-1" }
 
 type fakeElector struct{}
 
-func (fakeElector) Run(context.Context)   {}
-func (fakeElector) IsLeader(int) bool     { return true }
+func (fakeElector) Run(context.Context)                  {}
+func (fakeElector) IsLeader(int) bool                    { return true }
 func (fakeElector) SetCallbacks(elector.LeaderCallbacks) {}
 func (fakeElector) GetLeaders() map[int]proxyv1alpha1.EndpointInfo {
 	return map[int]proxyv1alpha1.EndpointInfo{0: {Leader: "verif"}}
@@ -78,8 +78,10 @@ type fakeLimiterController struct {
 	lister proxylisters.UpstreamClusterLister
 }
 
-func (f fakeLimiterController) Run(<-chan struct{})                                {}
-func (f fakeLimiterController) UpstreamClusterLister() proxylisters.UpstreamClusterLister { return f.lister }
+func (f fakeLimiterController) Run(<-chan struct{}) {}
+func (f fakeLimiterController) UpstreamClusterLister() proxylisters.UpstreamClusterLister {
+	return f.lister
+}
 func (f fakeLimiterController) Get(name string) (*proxyv1alpha1.UpstreamCluster, bool) {
 	c, err := f.lister.Get(name)
 	return c, err == nil
@@ -846,13 +848,32 @@ func shrink(c *rig.Ctx, cs Case, class string) Case {
 	if cs.Prev != nil {
 		// an update admission: simplify old and new object together
 		both := func(f func(w *ClusterW)) { try(func(x *Case) { f(&x.Cluster); f(x.Prev) }) }
-		both(func(w *ClusterW) { w.Schemas = nil; for i := range w.Policies { w.Policies[i].FlowControlSchemaName = "" } })
+		both(func(w *ClusterW) {
+			w.Schemas = nil
+			for i := range w.Policies {
+				w.Policies[i].FlowControlSchemaName = ""
+			}
+		})
 		both(func(w *ClusterW) { w.Serving = ServingW{} })
-		both(func(w *ClusterW) { if len(w.Policies) > 1 { w.Policies = w.Policies[:1] } })
-		both(func(w *ClusterW) { for i := range w.Policies { w.Policies[i].UpstreamSubset = nil } })
-		both(func(w *ClusterW) { if len(w.Servers) > 1 { w.Servers = w.Servers[:1] } })
+		both(func(w *ClusterW) {
+			if len(w.Policies) > 1 {
+				w.Policies = w.Policies[:1]
+			}
+		})
+		both(func(w *ClusterW) {
+			for i := range w.Policies {
+				w.Policies[i].UpstreamSubset = nil
+			}
+		})
+		both(func(w *ClusterW) {
+			if len(w.Servers) > 1 {
+				w.Servers = w.Servers[:1]
+			}
+		})
 		both(func(w *ClusterW) { w.Labels = nil })
-		both(func(w *ClusterW) { w.Client.QPS, w.Client.Burst, w.Client.QPSDivisor, w.Client.ServerName = 0, 0, 0, "" })
+		both(func(w *ClusterW) {
+			w.Client.QPS, w.Client.Burst, w.Client.QPSDivisor, w.Client.ServerName = 0, 0, 0, ""
+		})
 		try(func(x *Case) { x.Prev.Annotations = nil })
 	}
 	cs.Known = rig.ShrinkList(cs.Known, func(l []KnownW) bool { x := clone(cs); x.Known = l; return fails(x) })
@@ -929,7 +950,7 @@ func main() {
 	proxyv1alpha1.AddToScheme(scheme) //nolint
 	fs := flag.NewFlagSet("klog", flag.ContinueOnError)
 	klog.InitFlags(fs)
-	fs.Set("logtostderr", "false") //nolint
+	fs.Set("logtostderr", "false")     //nolint
 	fs.Set("alsologtostderr", "false") //nolint
 	fs.Set("stderrthreshold", "FATAL") //nolint
 	klog.SetOutput(io.Discard)
